@@ -19,3 +19,6 @@ import DclabModel.Properties.C09
 import DclabModel.Properties.C10
 import DclabModel.Properties.C08
 import DclabModel.Properties.C13
+import DclabModel.Properties.C07
+import DclabModel.Properties.C14
+import DclabModel.Properties.C05
